@@ -2533,6 +2533,7 @@ pub fn warn(env: &Rc<RefCell<Env>>, expr: &LocExpr) -> LocExpr {
         bound: HashSet::new(),
         env: Rc::clone(&env),
         warn: true,
+        pending: HashSet::new(),
     };
     match freeze(&mut frenv, &expr) {
         Ok(x) => x,
